@@ -101,6 +101,7 @@ type c02Gen struct {
 	feat   map[string]int
 	fdepth int // function nesting depth
 	inWithFn bool
+	classDepth int
 	exclude  map[string]bool // names a parameter initialiser must not mention (later parameters of the same function)
 }
 
@@ -165,7 +166,7 @@ func (g *c02Gen) freshName(env *c02Env) string {
 				break
 			}
 		}
-		if env.fn.vars[n] { // a lexical name equal to a var of the function: hoisting may collide (K-C02-5)
+		if env.fn.vars[n] && (env == env.fn || g.r.Bool()) { // a block may shadow a var of the function (hoisting, fixed K-C02-5)
 			conflict = true
 		}
 		if env.used[n] { // mentioned earlier as an outer variable
@@ -430,7 +431,7 @@ func (g *c02Gen) stmt(env *c02Env, depth int, fnTop bool) string {
 			return g.use(env)
 		}
 		n := g.r.Pick(c02Short) // single letter: hoisting decisions do not depend on KeepVarNames
-		if env.fn.lex[n] || env.fn.used[n] || env.used[n] {
+		if (env.fn.lex[n] && g.r.Bool()) || env.fn.used[n] || env.used[n] {
 			return g.use(env)
 		}
 		for s := env; s != nil; s = s.parent {
@@ -482,10 +483,29 @@ func (g *c02Gen) stmt(env *c02Env, depth int, fnTop bool) string {
 	case k < 52: // block
 		inner := newC02Env(env, false)
 		g.feat["block"]++
-		// a block never consists of declarations only (K-C02-7)
+		if g.r.Chance(15) { // declarations only, a later initialiser mentions an earlier name (fixed K-C02-7)
+			g.feat["letOnlyBlock"]++
+			a, b := g.freshName(inner), ""
+			g.declare(inner, a, "num", false)
+			b = g.freshName(inner)
+			return fmt.Sprintf("{let %s=%d;let %s=R(%d,%s)}", a, g.nextVal(), b, g.nextSite(), a)
+		}
 		return "{" + g.stmts(inner, depth-1, 1+g.r.Intn(4), false) + g.use(inner) + "}"
-	case k < 58: // if / else; no lexical declaration directly in a branch (else-flattening, K-C02-1)
+	case k < 58: // if / else
 		g.feat["if"]++
+		if g.fdepth > 0 && fnTop && g.r.Chance(30) {
+			// consequent ends in return, the else block declares lexically (else-flattening, fixed K-C02-1)
+			g.feat["ifFlowLex"]++
+			inner := newC02Env(env, false)
+			n := g.freshName(inner)
+			init := g.excluding([]string{n}, func() string { return g.initExpr(inner) })
+			g.declare(inner, n, "num", false)
+			body := fmt.Sprintf("let %s=%s;%s%s", n, init, g.use(inner), g.use(inner))
+			if g.r.Bool() {
+				return fmt.Sprintf("if(R(%d,0)){%sreturn %d}else{%s}", g.nextSite(), g.use(env), g.nextVal(), body)
+			}
+			return fmt.Sprintf("if(!R(%d,1)){%s}else{%sreturn %d}", g.nextSite(), body, g.use(env), g.nextVal())
+		}
 		a := "{" + g.use(newC02Env(env, false)) + g.nestedBlockOrUse(env, depth-1) + "}"
 		b := "{" + g.use(newC02Env(env, false)) + g.nestedBlockOrUse(env, depth-1) + "}"
 		if g.r.Chance(30) {
@@ -565,7 +585,7 @@ func (g *c02Gen) stmt(env *c02Env, depth int, fnTop bool) string {
 	case k < 88: // functions
 		return g.function(env, depth, fnTop)
 	case k < 92: // class
-		if !g.opt.classes || g.inWithFn || (top && !g.opt.topDecls) {
+		if !g.opt.classes || (top && !g.opt.topDecls) {
 			return g.use(env)
 		}
 		return g.class(env, depth)
@@ -577,7 +597,7 @@ func (g *c02Gen) stmt(env *c02Env, depth int, fnTop bool) string {
 		g.declare(inner, v, "num", false)
 		return fmt.Sprintf("%s:for(let %s=0;%s<2;%s++){if(R(%d,%s))continue %s;%s}", l, v, v, v, g.nextSite(), v, l, g.use(inner))
 	case k < 98: // with (only where every enclosing scope keeps its names)
-		if !g.opt.with || g.fdepth != 1 || !g.inWithFn {
+		if !g.opt.with || g.fdepth < 1 || !g.inWithFn || g.classDepth > 0 {
 			return g.use(env)
 		}
 		g.feat["with"]++
@@ -642,8 +662,9 @@ func (g *c02Gen) function(env *c02Env, depth int, fnTop bool) string {
 	defer func() { g.inWithFn = wasWith }()
 	if g.fdepth == 0 {
 		g.inWithFn = g.opt.with && g.r.Chance(50)
-	} else if g.fdepth >= 1 {
-		// nested functions never contain `with` themselves (their enclosing function may be renamed)
+	} else if g.classDepth == 0 {
+		// since fix f7bc618 a `with` may stand in a nested function: the enclosing functions keep their names
+		g.inWithFn = g.opt.with && g.r.Chance(30)
 	}
 	switch kind := g.r.Intn(5); {
 	case kind == 0 && fnTop && (!top || g.opt.topDecls): // declaration (function top level only)
@@ -696,6 +717,8 @@ func (g *c02Gen) function(env *c02Env, depth int, fnTop bool) string {
 
 func (g *c02Gen) class(env *c02Env, depth int) string {
 	g.feat["class"]++
+	g.classDepth++
+	defer func() { g.classDepth-- }()
 	name := g.freshName(env)
 	g.declare(env, name, "fn", false)
 	var sb strings.Builder
